@@ -33,6 +33,8 @@ enum Req {
     Large(u32),
     /// statement that runs past a 1 s timeout after a successful insert
     Timeout,
+    /// the same, followed by one more insert (which must not survive either)
+    TimeoutThenIns,
     Empty,
 }
 
@@ -88,6 +90,14 @@ fn stmts(r: Req, k: usize) -> (Vec<Statement>, Option<u64>) {
             ],
             Some(1),
         ),
+        Req::TimeoutThenIns => (
+            vec![
+                ins(60, "t", "t"),
+                s("WITH RECURSIVE c(x) AS (SELECT 1 UNION ALL SELECT x+1 FROM c WHERE x < 4000000000) INSERT INTO t (id,a,b) SELECT 5000000+x,'t','t' FROM c WHERE x % 1000000007 = 0"),
+                ins(61, "late", "late"),
+            ],
+            Some(1),
+        ),
         Req::Empty => (vec![], None),
     }
 }
@@ -126,7 +136,7 @@ fn model(r: Req, k: usize, rows: &mut Rows) -> Result<bool, ()> {
             Req::Del1 => {
                 rows.remove(&1);
             }
-            Req::SyntaxAt(_) | Req::PkDupAt(_) | Req::ParamCountAt2 | Req::NotNullAt2 | Req::Timeout | Req::Empty => return Err(()),
+            Req::SyntaxAt(_) | Req::PkDupAt(_) | Req::ParamCountAt2 | Req::NotNullAt2 | Req::Timeout | Req::TimeoutThenIns | Req::Empty => return Err(()),
             Req::InsExisting1Then7 => {
                 if rows.contains_key(&1) || rows.contains_key(&7) {
                     return Err(());
@@ -260,6 +270,13 @@ fn check_bcast(bcast: &[ChangeV1], own: klukai_types::actor::ActorId, version: u
     let mut ranges = vec![];
     let mut sent = vec![];
     let mut last = None;
+    // each chunk is handed to the broadcast queue by a task of its own: arrival order is not part
+    // of the statement (the ranges must tile, in whatever order they are announced)
+    let mut bcast: Vec<&ChangeV1> = bcast.iter().collect();
+    bcast.sort_by_key(|c| match &c.changeset {
+        Changeset::Full { seqs, .. } => seqs.start().0,
+        _ => 0,
+    });
     for c in bcast {
         if c.actor_id != own {
             bad("announcement-with-foreign-actor", json!({"actor": c.actor_id.to_string()}));
@@ -476,7 +493,11 @@ fn run_conc(tpl: &Template, reqs: &[Req], prefix: &[usize]) -> ConcOut {
                         };
                         announced.entry(cv).or_default().push(c.clone());
                     }
-                    let mine: Vec<ChangeV1> = got.iter().filter(|c| matches!(&c.changeset, Changeset::Full { version, .. } if version.0 == v)).cloned().collect();
+                    let mut mine: Vec<ChangeV1> = got.iter().filter(|c| matches!(&c.changeset, Changeset::Full { version, .. } if version.0 == v)).cloned().collect();
+                    mine.sort_by_key(|c| match &c.changeset {
+                        Changeset::Full { seqs, .. } => seqs.start().0,
+                        _ => 0,
+                    });
                     if mine.len() != got.len() {
                         bad("announcement-task-announced-another-version", json!({"task": v}));
                     }
@@ -708,8 +729,18 @@ fn main() {
         seqs.push(vec![Req::Ins1, Req::Large(*n), Req::Upd1]);
     }
     seqs.push(vec![Req::Large(60), Req::Large(30)]); // second one fails on existing keys
-    seqs.push(vec![Req::Timeout]);
-    seqs.push(vec![Req::Ins1, Req::Timeout, Req::Upd1]);
+    // the special cases run first (a wall-clock cap then cuts the longest alphabet sequences, not these)
+    let mut special: Vec<Vec<Req>> = vec![
+        vec![Req::Timeout],
+        vec![Req::Ins1, Req::Timeout, Req::Upd1],
+        vec![Req::TimeoutThenIns],
+        vec![Req::Ins1, Req::TimeoutThenIns, Req::Upd1],
+    ];
+    let nlarge = larges.len() * 2 + 1;
+    let tail: Vec<Vec<Req>> = seqs.split_off(seqs.len() - nlarge);
+    special.extend(tail);
+    special.extend(seqs);
+    let seqs = special;
 
     let deadline = Instant::now() + Duration::from_secs(cli.tier.pick(30, 900));
     let mut execs = 0u64;
@@ -717,7 +748,7 @@ fn main() {
     let mut capped = None;
     for seq in &seqs {
         if Instant::now() > deadline {
-            capped = Some(format!("wall-clock cap after {execs} of {} sequences (shortest first)", seqs.len()));
+            capped = Some(format!("wall-clock cap after {execs} of {} sequences (timeout and chunk-boundary cases, then the alphabet sequences shortest first)", seqs.len()));
             break;
         }
         let res = run_seq(&tpl, seq);
@@ -757,7 +788,7 @@ fn main() {
     if let Some(c) = capped {
         rep.set("cap_hit", c);
     }
-    rep.set("bounds", json!({"alphabet": alphabet.len(), "sequence_len_max": maxlen, "large_row_counts": larges.len(), "timeout_cases": 2}));
+    rep.set("bounds", json!({"alphabet": alphabet.len(), "sequence_len_max": maxlen, "large_row_counts": larges.len(), "timeout_cases": 4}));
     rep.assume("concurrent requests: a request's critical section (write connection + booked write lock, one block_in_place) is atomic with respect to other requests - that exclusion is C20's check; what is explored here is every order of the critical sections and every interleaving of the post-commit announcement tasks with later requests");
     rep.require_nontrivial(20, "a sequence is non-trivial when it contains at least one failing request and at least one acknowledged version");
     rep.finish();
